@@ -292,4 +292,12 @@ example : (enclose asciiChars ⟨false, false, ['{']⟩ (.int 2020) none true).t
 example : (enclose asciiChars ⟨false, true, ['"']⟩ (.int 2020) none true).toOption = some (.str "\"2020\"".toList) := by
   decide +kernel
 
+/-- **The numeric-field list is BibTeX's.** `ENTRY_POTENTIALLY_INT_FIELDS` is regenerated from
+enclosing.py on every run; `int_rule` holds for whatever it contains, this equation pins what it
+must contain (a dropped comma that merges two names, a removed field … break it). -/
+theorem int_fields_table_ok :
+    Generated.Enclosing.entryPotentiallyIntFields =
+      ["year", "month", "volume", "number", "pages", "edition", "chapter", "issue"].map String.toList := by
+  decide
+
 end Bib.C10
